@@ -5,6 +5,7 @@ import MalVerif.Model.Query
 import MalVerif.Model.Gen
 import MalVerif.Model.MState
 import MalVerif.Model.Serial
+import MalVerif.Model.AGSerial
 open Lean MalVerif
 
 namespace Drv
@@ -33,6 +34,11 @@ def opApriori (j : Json) : R Json := do
   pure <| jO [("viable", jsonOfList jB (idx.map v)), ("necessary", jsonOfList jB (idx.map n))]
 
 
+def ntypeName : AGraph.NType → String
+  | .or => "or" | .and => "and" | .defense => "defense" | .exist => "exist" | .notExist => "notExist"
+def jOptS' (o : Option String) : Json := match o with | some s => jS s | none => Json.null
+def jOptB' (o : Option Bool) : Json := match o with | some s => jB s | none => Json.null
+
 /-! ### attack-graph histories (C09, C11, C12, C13) -/
 open AGS in
 def obsSt (s : St) : Json :=
@@ -41,7 +47,10 @@ def obsSt (s : St) : Json :=
   jO [("nodes", jsonOfList (fun r =>
           let o := s.nobj r
           Json.arr #[jI o.id, jS (fullName o), jsonOfList nid o.children, jsonOfList nid o.parents,
-                     jsonOfList aid o.compBy, jB o.viable, jB o.necessary]) s.nodes),
+                     jsonOfList aid o.compBy, jB o.viable, jB o.necessary,
+                     Json.arr #[jS o.name, jS (ntypeName o.type),
+                                jS o.ttc, jOptS' o.defense, jOptB' o.exist, jOptS' o.mitre, jsonOfList jS o.tags, jS o.extras,
+                                jOptS' o.asset]]) s.nodes),
       ("attackers", jsonOfList (fun a =>
           let o := s.aobj a
           Json.arr #[jI o.id, jS o.name, jsonOfList nid o.entry, jsonOfList nid o.reached]) s.attackers),
@@ -63,7 +72,10 @@ def agStep (s : St) (j : Json) : R (St × Json × Json) := do
     let o : NodeObj := { name := ← jfield jstr j "name", asset := ← jfieldOpt jstr j "asset",
                          type := ← parseNType (← jfield jstr j "type"),
                          viable := ← jfield jbool j "viable", necessary := ← jfield jbool j "necessary",
-                         defOne := ← jfield jbool j "defOne", suppress := ← jfield jbool j "suppress" }
+                         defOne := ← jfield jbool j "defOne", suppress := ← jfield jbool j "suppress",
+                         ttc := (← jfieldOpt jstr j "ttc").getD "null", defense := ← jfieldOpt jstr j "defense",
+                         exist := ← jfieldOpt jbool j "exist", mitre := ← jfieldOpt jstr j "mitre",
+                         tags := (← jfieldOpt (jlist jstr) j "tags").getD [], extras := (← jfieldOpt jstr j "extras").getD "{}" }
     match addNode s o (← jfieldOpt jint j "id") with
     | .ok s' => ok s'
     | .error e => pure (s, jS (errName e), Json.null)
@@ -96,6 +108,13 @@ def agStep (s : St) (j : Json) : R (St × Json × Json) := do
       | _ => throw "bad label entry")) j "labels"
     ok (setLabels s labs)
   | "prune" => ok (prune s)
+  | "touch" =>
+    let n ← jfield jnat j "n"
+    match (← jfield jstr j "field") with
+    | "tags" => ok (updN s n (fun o => { o with tags := o.tags ++ ["touched"] }))
+    | "extras" => let t ← jfield jstr j "new"; ok (updN s n (fun o => { o with extras := t }))
+    | "ttc" => let t ← jfield jstr j "new"; ok (updN s n (fun o => { o with ttc := t }))
+    | f => throw s!"bad touch field {f}"
   | "trav" => ok s (jB (trav s (← jfield jnat j "a") (← jfield jnat j "n")))
   | "surface" => ok s (refs (surface s (← jfield jnat j "a")))
   | "update_surface" =>
@@ -116,11 +135,34 @@ def agStep (s : St) (j : Json) : R (St × Json × Json) := do
 def opAgHist (j : Json) : R Json := do
   let ops ← jfield jarr j "ops"
   let mut s : AGS.St := {}
+  let mut other : Option AGS.St := none      -- the other side of a deep copy
   let mut outs : Array Json := #[]
   for o in ops do
-    let (s', err, out) ← agStep s o
-    s := s'
-    outs := outs.push (jO [("err", err), ("out", out), ("obs", obsSt s)])
+    let k ← jfield jstr o "k"
+    let mut err := Json.null
+    let mut out := Json.null
+    if k == "save_load" then
+      let d := AGS.toDoc s
+      let d' := if (← jfield jstr o "fmt") == "json" then AGS.jsonRT d else AGS.yamlRT d
+      let withModel ← jfield jbool o "withModel"
+      match AGS.fromDoc withModel (fun _ => true) d' with
+      | .ok s' => s := s'
+      | .error e => err := jS (errName e)
+    else if k == "deepcopy" then
+      other := some s
+      s := AGS.deepcopy s
+    else if k == "switch" then
+      match other with
+      | some t =>
+        let cur := s
+        s := AGS.viewIn t cur
+        other := some cur
+      | none => throw "switch without deepcopy"
+    else
+      let (s', e, ou) ← agStep s o
+      s := s'; err := e; out := ou
+    let oo : Json := match other with | some t => obsSt (AGS.viewIn t s) | none => Json.null
+    outs := outs.push (jO [("err", err), ("out", out), ("obs", obsSt s), ("other", oo)])
   pure (Json.arr outs)
 
 
